@@ -67,6 +67,9 @@ type Case struct {
 	// Upsert: updated routes are swapped in by one transaction that first tries to register the route again with its old
 	// options (refused: it exists) and then updates it with the new ones
 	Upsert bool `json:"upsert,omitempty"`
+	// Spread: two more router-wide middleware are given last, as one slice spread into WithMiddleware; once New has returned the
+	// caller reuses that slice for something else. What was configured is what was in it when the option was built.
+	Spread bool `json:"spread,omitempty"`
 }
 
 type traceKey struct{}
@@ -111,6 +114,9 @@ func (c *Case) globalsFor(scope fox.HandlerScope) []string {
 		if mask&scope != 0 {
 			out = append(out, fmt.Sprintf("g%d", i))
 		}
+	}
+	if c.Spread {
+		out = append(out, "x0", "x1")
 	}
 	return out
 }
@@ -206,6 +212,13 @@ func build(c *Case) (*fox.Router, error) {
 			next(c)
 		}
 	}))
+	var stack []fox.MiddlewareFunc
+	if c.Spread {
+		stack = []fox.MiddlewareFunc{tracer("x0"), tracer("x1")}
+		// before the aliasing no-route middleware, which stays innermost
+		opts = append(opts[:len(opts)-1:len(opts)-1], fox.WithMiddleware(stack...), opts[len(opts)-1])
+		defer func() { stack[0], stack[1] = tracer("reused0"), tracer("reused1") }()
+	}
 	handlers := []fox.GlobalOption{
 		fox.WithNoRouteHandler(endpoint("noroute", 404)),
 		fox.WithNoMethodHandler(endpoint("nomethod", 405)),
@@ -489,6 +502,7 @@ func TestConfigurations(t *testing.T) {
 		}
 		c.HandlersFirst = gen.Chance(t, 1, 3, "handlersfirst")
 		c.Upsert = gen.Chance(t, 1, 3, "upsert")
+		c.Spread = gen.Chance(t, 1, 3, "spread")
 		nr := gen.IntR(t, 1, 3, "nroutes")
 		routeMw := 0
 		for i := 0; i < nr; i++ {
